@@ -5,6 +5,8 @@ package ice
 
 import "sync"
 
+import "github.com/pion/ice/v4/internal/verifhook"
+
 // OnConnectionStateChange sets a handler that is fired when the connection state changes.
 func (a *Agent) OnConnectionStateChange(f func(ConnectionState)) error {
 	a.onConnectionStateChangeHdlr.Store(f)
@@ -71,8 +73,10 @@ func (h *handlerNotifier) Close(graceful bool) {
 		// if we were closed ungracefully before, we now
 		// want ot wait.
 		defer h.notifiers.Wait()
+		defer verifhook.Yield("hn.close.wait")
 	}
 
+	verifhook.Yield("hn.close")
 	h.Lock()
 
 	select {
@@ -87,6 +91,7 @@ func (h *handlerNotifier) Close(graceful bool) {
 }
 
 func (h *handlerNotifier) EnqueueConnectionState(state ConnectionState) {
+	verifhook.Yield("hn.cs.enq")
 	h.Lock()
 	defer h.Unlock()
 
@@ -98,7 +103,9 @@ func (h *handlerNotifier) EnqueueConnectionState(state ConnectionState) {
 
 	notify := func() {
 		defer h.notifiers.Done()
+		defer verifhook.Yield("hn.cs.exit")
 		for {
+			verifhook.Yield("hn.cs.lock")
 			h.Lock()
 			if len(h.connectionStates) == 0 {
 				h.runningConnectionStates = false
@@ -109,6 +116,7 @@ func (h *handlerNotifier) EnqueueConnectionState(state ConnectionState) {
 			notification := h.connectionStates[0]
 			h.connectionStates = h.connectionStates[1:]
 			h.Unlock()
+			verifhook.Yield("hn.cs.call")
 			h.connectionStateFunc(notification)
 		}
 	}
@@ -122,6 +130,7 @@ func (h *handlerNotifier) EnqueueConnectionState(state ConnectionState) {
 }
 
 func (h *handlerNotifier) EnqueueCandidate(cand Candidate) {
+	verifhook.Yield("hn.cand.enq")
 	h.Lock()
 	defer h.Unlock()
 
@@ -133,7 +142,9 @@ func (h *handlerNotifier) EnqueueCandidate(cand Candidate) {
 
 	notify := func() {
 		defer h.notifiers.Done()
+		defer verifhook.Yield("hn.cand.exit")
 		for {
+			verifhook.Yield("hn.cand.lock")
 			h.Lock()
 			if len(h.candidates) == 0 {
 				h.runningCandidates = false
@@ -144,6 +155,7 @@ func (h *handlerNotifier) EnqueueCandidate(cand Candidate) {
 			notification := h.candidates[0]
 			h.candidates = h.candidates[1:]
 			h.Unlock()
+			verifhook.Yield("hn.cand.call")
 			h.candidateFunc(notification)
 		}
 	}
@@ -157,6 +169,7 @@ func (h *handlerNotifier) EnqueueCandidate(cand Candidate) {
 }
 
 func (h *handlerNotifier) EnqueueSelectedCandidatePair(pair *CandidatePair) {
+	verifhook.Yield("hn.pair.enq")
 	h.Lock()
 	defer h.Unlock()
 
@@ -168,7 +181,9 @@ func (h *handlerNotifier) EnqueueSelectedCandidatePair(pair *CandidatePair) {
 
 	notify := func() {
 		defer h.notifiers.Done()
+		defer verifhook.Yield("hn.pair.exit")
 		for {
+			verifhook.Yield("hn.pair.lock")
 			h.Lock()
 			if len(h.selectedCandidatePairs) == 0 {
 				h.runningCandidatePairs = false
@@ -179,6 +194,7 @@ func (h *handlerNotifier) EnqueueSelectedCandidatePair(pair *CandidatePair) {
 			notification := h.selectedCandidatePairs[0]
 			h.selectedCandidatePairs = h.selectedCandidatePairs[1:]
 			h.Unlock()
+			verifhook.Yield("hn.pair.call")
 			h.candidatePairFunc(notification)
 		}
 	}
